@@ -507,7 +507,7 @@ class IntegrityChecker(object):
         cues = []
         neg_feats = []
         for fl in ['fl1_max', 'fl2_max', 'fl3_max']:
-            if fl in self.ds:
+            if fl in self.ds and len(self.ds[fl]):
                 if min(self.ds[fl]) <= 0.1:
                     neg_feats.append(fl)
         if neg_feats:
